@@ -19,7 +19,7 @@ func init() {
 	Register(&Rule{
 		ID:    "R-SMALL",
 		Doc:   "single-site obligations: thrift Reset recomputes protocol flags like the constructor; the seen-bit of a decoded field is set on every path that consumes it; keyset lookups are confirmed by a length comparison; HTML key fragments are always computed; slice growth is geometric; every callback parameter of the skippers is used; trailing-data tests dominate success returns; varint overflow constants; sort-before-delta; number-kind precedence; identities of base64/time/endianness callees",
-		Props: []string{"C01", "C02", "C03", "C04", "C07", "C08", "C10", "C12", "C13", "C14", "C16", "C17", "C19"},
+		Props: []string{"C01", "C02", "C03", "C04", "C07", "C08", "C09", "C10", "C11", "C12", "C13", "C14", "C16", "C17", "C19"},
 		Min:   map[string]int{"C01": 5, "C02": 3, "C03": 1, "C04": 4, "C07": 3, "C08": 4, "C12": 2, "C13": 3, "C14": 3, "C16": 1, "C17": 1, "C19": 2},
 		Run:   runSmall,
 	})
@@ -65,6 +65,10 @@ func runSmall(c *core.Ctx) []core.Obligation {
 	smallEmptyInterface(c, b)
 	smallNilScalarHasNoSize(c, b)
 	smallNumberFromString(c, b)
+	smallThriftNeverSeeks(c, b)
+	smallRepeatedOneElementPerOccurrence(c, b)
+	smallMemoFreshPerCompilation(c, b)
+	smallDecoderReaderNotWrapped(c, b)
 	smallStringOptionNull(c, b)
 	smallStringOptionMarshaler(c, b)
 	return b.out
@@ -983,6 +987,189 @@ func smallRawVarintByte(c *core.Ctx, b *ob) {
 	}
 	if n == 0 {
 		b.addP(props, core.Discharged, "raw-varint-byte:none", "proto", "no integer is written as a raw byte outside encodeVarint: every length and tag goes through the varint encoder")
+	}
+}
+
+// S43 — a Decoder takes from its reader only what it buffers: Buffered() plus what is left in the
+// reader is exactly the unconsumed input, so a caller can hand the rest of a stream to something
+// else. NewDecoder must therefore keep the reader it was given; wrapping it in a read-ahead
+// buffer of its own moves bytes out of the caller's reader that Buffered() does not return.
+func smallDecoderReaderNotWrapped(c *core.Ctx, b *ob) {
+	props := []string{"C11"}
+	key := "decoder:reads-from-the-given-reader"
+	fn := c.Lookup("json.NewDecoder")
+	if fn == nil || len(fn.Params) != 1 {
+		b.addP(props, core.Undecided, key, "-", "json.NewDecoder not found")
+		return
+	}
+	n, bad := 0, ""
+	for _, blk := range fn.Blocks {
+		for _, in := range blk.Instrs {
+			st, ok := in.(*ssa.Store)
+			if !ok {
+				continue
+			}
+			fa, ok := st.Addr.(*ssa.FieldAddr)
+			if !ok || fieldAddrID(fa) != "json.Decoder.reader" {
+				continue
+			}
+			n++
+			if st.Val != ssa.Value(fn.Params[0]) {
+				bad = c.InstrPos(st)
+			}
+		}
+	}
+	switch {
+	case n == 0:
+		b.addP(props, core.Undecided, key, c.FuncPos(fn), "NewDecoder does not store a reader")
+	case bad != "":
+		b.addP(props, core.Violation, key, bad, "NewDecoder stores something else than the reader it was given (a wrapper): bytes read ahead by the wrapper are neither returned by Buffered() nor left in the caller's reader, so the unconsumed input can no longer be recovered after Decode")
+	default:
+		b.addP(props, core.Discharged, key, c.FuncPos(fn), "the Decoder reads from the caller's reader directly")
+	}
+}
+
+// S42 — the memo a type compiler threads through its recursion (seen map[reflect.Type]…) holds
+// descriptors that are registered *before* they are complete, which is what lets recursive types
+// terminate. That is only safe while the memo is private to one compilation: the entry points
+// create it afresh and publish the finished result through the copy-on-write cache. A memo that
+// outlives the call (a package-level map, a sync.Map) exposes half-built codecs to other
+// goroutines compiling a type that shares a component.
+func smallMemoFreshPerCompilation(c *core.Ctx, b *ob) {
+	props := []string{"C09"}
+	isMemoType := func(t types.Type) bool {
+		s := t.String()
+		return strings.Contains(s, "encodeFuncCache") || strings.Contains(s, "decodeFuncCache") || strings.HasPrefix(t.Underlying().String(), "map[reflect.Type]") || strings.Contains(t.Underlying().String(), "map[github.com/segmentio/encoding/json.structTypeKey]")
+	}
+	hasMemoParam := func(fn *ssa.Function) int {
+		for i, p := range fn.Params {
+			if isMemoType(p.Type()) {
+				return i
+			}
+		}
+		return -1
+	}
+	n := 0
+	fns := c.RepoFunctions()
+	sort.Slice(fns, func(i, j int) bool { return shortName(fns[i]) < shortName(fns[j]) })
+	for _, fn := range fns {
+		if fn.Blocks == nil || hasMemoParam(fn) >= 0 {
+			continue // only the entry points: callers that do not themselves receive a memo
+		}
+		if fn.Parent() != nil && hasMemoParam(fn.Parent()) >= 0 {
+			continue // closures of a compiler capture its memo
+		}
+		for _, ci := range callsIn(fn) {
+			f := staticCallee(ci.Common())
+			if f == nil || !c.InRepo(f) {
+				continue
+			}
+			idx := hasMemoParam(f)
+			if idx < 0 || idx >= len(ci.Common().Args) {
+				continue
+			}
+			arg := ci.Common().Args[idx]
+			n++
+			key := "memo:fresh-per-compilation:" + shortName(fn) + "->" + f.Name()
+			fresh := false
+			for _, o := range origins(arg) {
+				switch x := o.(type) {
+				case *ssa.MakeMap:
+					fresh = true
+				case *ssa.Alloc:
+					fresh = true
+				case *ssa.Const:
+					if x.Value == nil {
+						fresh = true // a nil memo: nothing shared
+					}
+				default:
+					fresh = false
+				}
+				if !fresh {
+					break
+				}
+			}
+			if fresh {
+				b.addP(props, core.Discharged, key, c.InstrPos(ci), "the memo is created for this compilation")
+			} else {
+				b.addP(props, core.Violation, key, c.InstrPos(ci), shortName(fn)+" hands "+f.Name()+" a memo that is not created for this call ("+texpr(arg, 0)+"): the compilers register a type's codec before it is complete, so a memo shared between calls lets another goroutine pick up a half-built codec (fields missing: a truncated encoding with a nil error)")
+			}
+		}
+	}
+	if n == 0 {
+		b.addP(props, core.Undecided, "memo:fresh-per-compilation", "-", "no entry point of a type compiler found")
+	}
+}
+
+// S41 — every occurrence of a repeated field on the wire is one element, an empty payload included
+// (the reference implementation writes an all-default sub-message as tag, length 0). The decoder
+// of repeated fields reaches the element codec on every path: a return that bypasses it (an
+// "empty input, nothing to do" shortcut) silently drops elements.
+func smallRepeatedOneElementPerOccurrence(c *core.Ctx, b *ob) {
+	props := []string{"C12", "C03"}
+	key := "repeated:one-element-per-occurrence"
+	fn := c.Lookup("proto.sliceDecodeFuncOf$1")
+	if fn == nil {
+		b.addP(props, core.Undecided, key, "-", "proto.sliceDecodeFuncOf$1 not found")
+		return
+	}
+	var elem *ssa.Call
+	for _, ci := range callsIn(fn) {
+		call, ok := ci.(*ssa.Call)
+		if !ok || staticCallee(call.Common()) != nil || call.Common().IsInvoke() {
+			continue
+		}
+		if _, isB := call.Call.Value.(*ssa.Builtin); isB {
+			continue
+		}
+		elem = call
+	}
+	if elem == nil {
+		b.addP(props, core.Undecided, key, c.FuncPos(fn), "the call of the element codec was not found")
+		return
+	}
+	bad := ""
+	for _, r := range returnsOf(fn) {
+		if !(elem.Block() == r.Block() || elem.Block().Dominates(r.Block())) {
+			bad = c.InstrPos(r)
+		}
+	}
+	if bad != "" {
+		b.addP(props, core.Violation, key, bad, "the decoder of repeated fields returns on a path that does not decode an element: an occurrence with an empty payload (12 00, how the reference implementation writes an all-default element) is dropped and [{1,2},{},{3}] decodes to two elements")
+	} else {
+		b.addP(props, core.Discharged, key, c.FuncPos(fn), "every occurrence decodes one element")
+	}
+}
+
+// S40 — thrift skips input by reading it. io.Seeker.Seek moves past the end of the input without an
+// error (and bytes.Reader then reports nothing left), so a skipped value that is truncated would
+// be accepted: truncated input must yield an unexpected-EOF error. No decoding path may Seek.
+func smallThriftNeverSeeks(c *core.Ctx, b *ob) {
+	props := []string{"C08"}
+	key := "thrift:skip-reads-never-seeks"
+	bad := ""
+	n := 0
+	for _, fn := range c.RepoFunctions() {
+		if fn.Blocks == nil || !strings.HasPrefix(shortName(fn), "thrift.") {
+			continue
+		}
+		n++
+		for _, ci := range callsIn(fn) {
+			if m := ci.Common().Method; m != nil && m.Name() == "Seek" {
+				bad = shortName(fn) + " at " + c.InstrPos(ci)
+			}
+			if f := staticCallee(ci.Common()); f != nil && f.Name() == "Seek" {
+				bad = shortName(fn) + " at " + c.InstrPos(ci)
+			}
+		}
+	}
+	switch {
+	case n == 0:
+		b.addP(props, core.Undecided, key, "-", "no thrift function found")
+	case bad != "":
+		b.addP(props, core.Violation, key, "-", "thrift repositions its input with Seek ("+bad+"): seeking past the end is not an error, so a value that is skipped and truncated is accepted (Unmarshal returns nil on a truncated payload) instead of failing with an unexpected-EOF error")
+	default:
+		b.addP(props, core.Discharged, key, "-", "input is consumed by reading only")
 	}
 }
 
